@@ -21,6 +21,13 @@ TABLE = {
  "C19-a": ("C19", "map_blocks takes the spec for coercing non-cubed arguments from args[0] only: needs a NON-cubed first argument (numpy array / scalar) followed by a cubed array that carries an explicit Spec -> 'Arrays must have same spec' although the same call is accepted under the default configuration"),
  "C06-a": ("C06", "structured-dtype arrays are created with group.create_array(overwrite=mode != 'w-'): needs a structured intermediate (mean/argmax/var, unfused) and a create-arrays task re-executed after a downstream task wrote chunks -> the chunks are deleted, results become NaN/0 without any error"),
  "C03-a": ("C03", "partial_reduce sizes the reduced chunks of its extra_projected_mem with the INPUT dtype: needs a widening reduction (mean/var of float32, sum of int32/int8) over chunks that are skinny along the reduced axis (1-2 rows, long kept axis) -> the first partial reduce is projected ~10-30% below its real peak. NOTE: written against the tree before fix 6b9de17, which changes the same line; patch_rebased.diff is the same change on the repaired tree"),
+ "C07-b": ("C07", "visit_node_generations drops nodes flagged computed before grouping into topological generations: needs resume=True (which flags every array node) + compute_arrays_in_parallel=True on threads/processes + at least two dependent operations left to run -> all remaining operations and create-arrays fall into one generation and run as one merged stream; a consumer reads fill values"),
+ "C13-b": ("C13", "region store keeps `source` un-rechunked for num_tasks (`aligned = source.rechunk(chunks)` with one use not renamed): needs a region store whose source chunking differs from the target's (one oversized source chunk, or source chunks a multiple of the target chunks) -> advertised num_tasks counts the source's blocks, the task list enumerates the target's"),
+ "C09-b": ("C09", "already_computed `continue`s for 0-d targets instead of treating them as incomplete: needs resume=True, an operation whose outputs are all 0-d (last step of sum) and a crash after the array was created but before its chunk was written -> the op is skipped and the empty 0-d array is trusted (sum == 0.0)"),
+ "C18-b": ("C18", "Spec.__eq__ no longer compares reserved_mem: needs two Specs that differ ONLY in reserved_mem -> every multi-array entry point combines them silently and the plan runs under arrays[0]'s budget"),
+ "C17-b": ("C17", "to_chunksize's regularity check inlined without the 'last chunk larger than the first' clause: needs chunk arithmetic yielding a layout like (2,3) / (1,1,3) (reshape merging an odd leading axis with >= 2 trailing chunks, reshape splitting (6,)/(3,) to (3,2), blocks[[3,0]]) -> accepted instead of refused; a stored chunk is never written (silent zeros) or a task fails with IndexError"),
+ "C14-b": ("C14", "_rechunk_plan skips the final copy when the intermediate chunks equal the target chunks: needs allow_irregular=True (default), memory too tight to consolidate writes and a source chunk that is not a multiple of the target chunk -> the result keeps a rectilinear grid (70,30,40,60,..) instead of the requested chunks; caught by the repository's own hypothesis test, which the pinned deterministic run excludes"),
+ "C04-b": ("C04", "can_fuse_multiple_primitive_ops de-duplicates repeated predecessor ops before computing the peak for the fusion veto while fuse_multiple still composes the projection from the full list: needs one intermediate feeding two arguments of the next op (multiply(b, b)) and allowed_mem in a narrow window -> the default optimizer turns a fitting plan into a refused one"),
 }
 for sid, (prop, needs) in TABLE.items():
     d = os.path.join(ROOT, sid)
